@@ -329,4 +329,5 @@ func vC02Structure(crt *cert.Certificate, key crypto.PrivateKey) {
 	vSameBytes(tbsDer, vTLV(0x30, body), "TBSCertificate is not the RFC 5280 structure of its fields")
 	sigDer := vTLV(0x03, vCat([]byte{0}, crt.SignatureValue.Bytes))
 	vSameBytes(vMustDer(*crt), vTLV(0x30, vCat(tbsDer, outer, sigDer)), "Certificate is not SEQUENCE { tbsCertificate, signatureAlgorithm, signatureValue }")
+	vDerCertificate(vMustDer(*crt), true, "certificate")
 }
